@@ -11,6 +11,7 @@ import (
 	"fmt"
 	"go/types"
 	"golang.org/x/tools/go/ssa"
+	"os"
 	"strings"
 )
 
@@ -226,6 +227,7 @@ func lexAll(p *Prog, first string, text string, maxStates int) (toks []lexTok, o
 type parseObs struct {
 	factory string
 	elems   []Val
+	args    []Val
 }
 
 // parseRun evaluates a method of the SML parser on a concrete token queue
@@ -233,13 +235,38 @@ type parseObs struct {
 // with the per-message state empty: no variable names seen, ellipsis count 0.
 // Scalar fields of the parser other than those start as zero values. It
 // returns the factory calls in call order and the diagnostics reported.
+var modelAlways = os.Getenv("SC_QUEUETOK") == ""
+
 func parseRun(p *Prog, fn *ssa.Function, toks []lexTok, depth int) (obs []parseObs, diags []string, ok bool) {
+	obs, diags, _, ok = parseRunRet(p, fn, toks, depth)
+	return
+}
+
+// parseRunRet is parseRun that also hands back the values the method returns
+// (one tuple per return reached).
+func parseRunRet(p *Prog, fn *ssa.Function, toks []lexTok, depth int) (obs []parseObs, diags []string, rets [][]Val, ok bool) {
 	ttComment, _ := smlConst(p, "tokenTypeComment")
 	in := NewInterp(p)
 	in.Recursion = depth
+	// the token source. A parser that keeps the tokens in a queue field gets
+	// the queue filled (comment tokens dropped, as its peek() drops them before
+	// queueing); any other parser is fed through the lexer's token-returning
+	// method, one token per call, comment tokens included.
+	queueField := ""
+	if obj := p.Pkgs["sml"].Types.Scope().Lookup("parser"); obj != nil {
+		if st, isStruct := obj.Type().Underlying().(*types.Struct); isStruct {
+			for i := 0; i < st.NumFields(); i++ {
+				if sl, isSlice := st.Field(i).Type().Underlying().(*types.Slice); isSlice {
+					if nm, isNamed := sl.Elem().(*types.Named); isNamed && nm.Obj().Name() == "token" {
+						queueField = st.Field(i).Name()
+					}
+				}
+			}
+		}
+	}
 	n := 0
 	for _, t := range toks {
-		if t.typ == ttComment {
+		if t.typ == ttComment && queueField != "" && !modelAlways {
 			continue
 		}
 		in.PathBind[fmt.Sprintf("tq[%d].typ", n)] = int64Val(t.typ)
@@ -248,7 +275,43 @@ func parseRun(p *Prog, fn *ssa.Function, toks []lexTok, depth int) (obs []parseO
 		in.PathBind[fmt.Sprintf("tq[%d].col", n)] = int64Val(t.col)
 		n++
 	}
-	in.InitBind["p0.tokenQueue"] = Val{K: KSlice, S: "tq", Len: n}
+	if queueField != "" && !modelAlways {
+		in.InitBind["p0."+queueField] = Val{K: KSlice, S: "tq", Len: n}
+	} else {
+		if queueField != "" {
+			in.InitBind["p0."+queueField] = Val{K: KSlice, S: "p0." + queueField + "!0", Len: 0}
+		}
+		intT := types.Typ[types.Int]
+		in.InitBind["tq!next"] = int64Val(0)
+		in.CallModel = func(callee *ssa.Function, a []Val, fr *frame) (Val, bool) {
+			sig := callee.Signature
+			if sig.Recv() == nil || sig.Params().Len() != 0 || sig.Results().Len() != 1 || callee.Pkg == nil || callee.Pkg.Pkg.Name() != "sml" {
+				return Val{}, false
+			}
+			if nm, isNamed := sig.Results().At(0).Type().(*types.Named); !isNamed || nm.Obj().Name() != "token" {
+				return Val{}, false
+			}
+			if !strings.Contains(sig.Recv().Type().String(), "lexer") {
+				return Val{}, false
+			}
+			k := fr.load("tq!next", intT)
+			if os.Getenv("SC_TRACE7") != "" {
+				fmt.Fprintf(os.Stderr, "token model: next=%s in %s\n", k, FnName(fr.fn))
+			}
+			if k.K != KInt || !k.I.IsInt64() {
+				return top, true
+			}
+			i := int(k.I.Int64())
+			if i >= n {
+				i = n - 1 // the end-of-input token repeats
+			}
+			fr.store(Val{K: KPtr, S: "tq!next"}, int64Val(int64(i+1)), intT)
+			if os.Getenv("SC_TRACE7") != "" {
+				fmt.Fprintf(os.Stderr, "  after store: %s\n", fr.load("tq!next", intT))
+			}
+			return Val{K: KAgg, S: fmt.Sprintf("tq[%d]", i), Agg: map[string]cell{}}, true
+		}
+	}
 	in.InitBind["p0.ellipsisCount"] = int64Val(0)
 	in.MapKeys["p0.variableNames"] = nil
 	if obj := p.Pkgs["sml"].Types.Scope().Lookup("parser"); obj != nil {
@@ -268,7 +331,7 @@ func parseRun(p *Prog, fn *ssa.Function, toks []lexTok, depth int) (obs []parseO
 	in.OnCall = func(call *ssa.Call, callee *ssa.Function, a []Val, fr *frame) {
 		switch {
 		case isFactory(callee) && callee.Pkg != nil && callee.Pkg.Pkg.Name() == "ast":
-			o := parseObs{factory: callee.Name()}
+			o := parseObs{factory: callee.Name(), args: a}
 			if vi := variadicIndex(callee); vi >= 0 && vi < len(a) {
 				if a[vi].K == KSlice && a[vi].Len >= 0 {
 					for i := 0; i < a[vi].Len; i++ {
@@ -287,9 +350,12 @@ func parseRun(p *Prog, fn *ssa.Function, toks []lexTok, depth int) (obs []parseO
 			}
 		}
 	}
-	in.Run(fn, defaultArgs(fn), nil)
+	out := in.Run(fn, defaultArgs(fn), nil)
 	if len(in.Stuck) > 0 {
 		ok = false
 	}
-	return obs, diags, ok
+	if out.Frame != nil {
+		rets = out.Frame.ReturnVals()
+	}
+	return obs, diags, rets, ok
 }
